@@ -318,6 +318,12 @@ class SpecEnv:
             if self.fx is not None and self.fx.entry_heap is self.old:
                 return z3.BoolVal(self.cur.epoch == self.old.epoch)
             return z3.BoolVal(True)
+        if f == "raised_by":
+            # raised_by('contract'): the exception in flight was raised by a call of that contract on this path (and merely
+            # propagated, possibly through handlers that re-raise the same object).  Syntactic path ghost; callee-side only.
+            if self.callsite or self.exc is None:
+                return z3.Const(fresh_name("raised_by?"), z3.BoolSort())
+            return z3.BoolVal(self.ghost.get("$raised:" + str(self.exc)) == self._str(a[0]))
         if f == "callcount":
             # number of calls of the named contract on this path (syntactic path ghost; callee-side only)
             n = self._str(a[0])
